@@ -171,10 +171,12 @@ type Outputs struct {
 	Vars  []string `json:"vars"`
 	Env   []string `json:"env"`
 	Items []string `json:"items"`
+	// Defers: what the task's deferred commands printed (values of the templates inside the defer: entries)
+	Defers []string `json:"defers"`
 }
 
 func coqOutputs(o Outputs) string {
-	return fmt.Sprintf("{| o_vars := %s; o_env := %s; o_items := %s |}", cg.StrList(o.Vars), cg.StrList(o.Env), cg.StrList(o.Items))
+	return fmt.Sprintf("{| o_vars := %s; o_env := %s; o_items := %s; o_defers := %s |}", cg.StrList(o.Vars), cg.StrList(o.Env), cg.StrList(o.Items), cg.StrList(o.Defers))
 }
 
 // Row mirrors one element of Vars.Model.rows.
@@ -207,13 +209,34 @@ type Ctx struct {
 	Matrix  string   `json:"matrix"`
 	VProbes []string `json:"vprobes"`
 	EProbes []string `json:"eprobes"`
+	Defers  [][]Part `json:"defers,omitempty"` // templates inside the task's defer: entries
+}
+
+func coqParts(ps []Part) string {
+	items := make([]string, 0, len(ps))
+	for _, p := range ps {
+		if p.Var != "" {
+			items = append(items, "TVar "+cg.Str(p.Var))
+		} else {
+			items = append(items, "TLit "+cg.Str(p.Lit))
+		}
+	}
+	return cg.List(items)
+}
+
+func coqPartsList(pss [][]Part) string {
+	items := make([]string, len(pss))
+	for i, ps := range pss {
+		items[i] = coqParts(ps)
+	}
+	return cg.List(items)
 }
 
 func coqCtx(x Ctx) string {
 	return fmt.Sprintf("{| x_name := %s; x_special := %s; x_genv := %s; x_gvars := %s; x_incvars := []; x_incfile := []; "+
 		"x_call := %s; x_tvars := %s; x_root_dir := %s; x_task_dir := %s; x_dir_tmpl := %s; x_tdot := %s; x_tenv := %s; x_matrix := %s; "+
-		"x_vprobes := %s; x_eprobes := %s |}",
+		"x_vprobes := %s; x_eprobes := %s; x_defers := %s |}",
 		cg.Str(x.Name), coqVars(x.Special), coqEntries(x.GEnv), coqEntries(x.GVars), coqEntries(x.Call), coqEntries(x.TVars),
 		cg.Str(x.RootDir), cg.Str(x.TaskDir), coqDirTmpl(x.DirVar), coqVarsList(x.TDot), coqEntries(x.TEnv), coqOptStr(x.Matrix),
-		cg.StrList(x.VProbes), cg.StrList(x.EProbes))
+		cg.StrList(x.VProbes), cg.StrList(x.EProbes), coqPartsList(x.Defers))
 }
